@@ -613,6 +613,8 @@ __visible_default int dlclose(void *handle)
 
 		if (map->handle == handle) {
 			map->mod = NULL;
+			/* opening the same file again is a new load: report it again */
+			map->libname[0] = '\0';
 			break;
 		}
 	}
